@@ -484,6 +484,19 @@ func genCase(t *rapid.T) Case {
 			}
 			gl.Kids = append(gl.Kids, e)
 		}
+		if g.Chance(1, 3, "uniqtwins") {
+			// two entries that agree on the first leaf of a set and both lack a later one: not compared (an entry counts only
+			// when it has every leaf of the set)
+			for _, e := range gl.Kids[:2] {
+				var kept []*D
+				for _, k := range e.Kids {
+					if k.Name != "addr" {
+						kept = append(kept, k)
+					}
+				}
+				e.Kids = append(kept, &D{Name: "addr", Kids: []*D{{Name: "v10", Vals: []string{"x"}}, {Name: "v6", Vals: []string{"z"}}}})
+			}
+		}
 		top := c.Mods[0].Nodes[0]
 		var topD *D
 		for _, d := range c.Data {
